@@ -249,9 +249,7 @@ Proof.
     destruct (pfrag_char uncompress file bs d _ r d' C PF) as (R1 & R2 & R3 & R4).
     rewrite T, FL in R1, R4. cbn in R1. subst r.
     rewrite (R4 _ eq_refl). cbn [fst snd].
-    assert ((f_frag_off f + len tail) mod u32m <= f_frag_off f + len tail) by (apply N.mod_le; discriminate).
-    destruct (N.ltb_spec bs ((f_frag_off f + len tail) mod u32m)); [lia|].
-    destruct (N.ltb_spec bs (f_frag_off f + len tail)); [lia|].
+    destruct (N.ltb_spec fsz (f_frag_off f + len tail)); [lia|].
     cbn. rewrite SL. reflexivity.
 Qed.
 
